@@ -90,6 +90,23 @@ func complete(c *harness.C, what string, k cell, shares map[uint16][]byte, vecs 
 			res = bad("share-usable", "c08-share-unusable", err.Error())
 			return
 		}
+		// the orchestrator loads the share into a fresh signer BEFORE it initialises it, and once
+		// more afterwards (threshold.Scheme: SetShareData, Init, SetShareData). That order must work
+		// and produce a signer as good as the one the Init-first order produces.
+		alt := map[uint16]*ps.TPS{}
+		for _, id := range cryptolib.IDs(k.n) {
+			sg := &ps.TPS{Logger: world.NopLogger{}, Party: id, Curve: cryptolib.Curve, MessageLength: k.l}
+			if err := sg.SetShareData(shares[id]); err != nil {
+				res = bad("share-usable", "c08-share-unusable:load-before-init", fmt.Sprintf("party %d: loading the stored share into a signer that has not been initialised yet: %v", id, err))
+				return
+			}
+			sg.Init(cryptolib.IDs(k.n), k.t, nil)
+			if err := sg.SetShareData(shares[id]); err != nil {
+				res = bad("share-usable", "c08-share-unusable:load-init-load", fmt.Sprintf("party %d: %v", id, err))
+				return
+			}
+			alt[id] = sg
+		}
 		var pk0 []byte
 		for _, id := range cryptolib.IDs(k.n) {
 			pk, err := signers[id].ThresholdPK()
@@ -130,6 +147,13 @@ func complete(c *harness.C, what string, k cell, shares map[uint16][]byte, vecs 
 					return
 				}
 				wit[id] = w
+				if sig2, err := alt[id].Sign(context.Background(), req.Bytes()); err != nil {
+					res = bad("signer-signs", "c08-sign-fails:load-init-load", fmt.Sprintf("vector %v signer %d (share loaded before and after Init): %v", vec, id, err))
+					return
+				} else if _, err := pr.UnBlind(id, sig2, &secret); err != nil {
+					res = bad("witness-valid", "c08-unblind-fails:load-init-load", fmt.Sprintf("vector %v signer %d (share loaded before and after Init): %v", vec, id, err))
+					return
+				}
 			}
 			for _, sub := range cryptolib.Subsets(cryptolib.IDs(k.n), k.t, k.n) {
 				var ws []ps.SignatureWitness
